@@ -163,16 +163,40 @@ package gtfs
 //@   ensures len(result) == 0 <==> len(csv.missingRequiredColumns) == 0
 //@   ensures csvOK(csv)
 
+// the stop a stops.txt row is transcribed to (C01; location_type default depends on parent_station, C10)
+//@ pure func stopFaithful(e Stop, f *csv.File) bool = e.Id == col(f, "stop_id") && e.Code == col(f, "stop_code") && e.Name == col(f, "stop_name") && e.Description == col(f, "stop_desc") && e.ZoneId == col(f, "zone_id") && e.Url == col(f, "stop_url") && e.Timezone == col(f, "stop_timezone") && e.PlatformCode == col(f, "platform_code") && e.Type == parseStopType(col(f, "location_type"), col(f, "parent_station") != "") && e.WheelchairBoarding == parseWheelchairBoarding(col(f, "wheelchair_boarding")) && e.Parent == nil && (col(f, "stop_lon") == "" ==> e.Longitude == nil) && (col(f, "stop_lat") == "" ==> e.Latitude == nil)
+//@ pure func stopAppended(stops []Stop, n0 int, parentStopIds []string, f *csv.File) bool = len(stops) == n0 + 1 && stopFaithful(stops[len(stops) - 1], f) && parentStopIds[len(stops) - 1] == col(f, "parent_station")
+// p is nil or the very element of stops at some index (C03)
+//@ pure func nilOrElement(p *Stop, stops []Stop) bool = p == nil || (obj(p) == obj(stops) && off(stops) <= idx(p) && idx(p) < off(stops) + len(stops) && p == &stops[idx(p) - off(stops)])
+
 //@ func parseStops
-//@   props C01 C03 C05 C08 C09 C10
+//@   props C01 C03 C05 C06 C08 C09 C10
 //@   requires csvOK(csv)
+//@   ensures [parents-are-elements-of-the-result] forall i int :: 0 <= i && i < len(result) ==> nilOrElement(result[i].Parent, result)
 //@   loop 1 invariant csvOK(csv)
-//@   loop 1 invariant len(parentStopIds) == len(stops) && stopIdToIndex != nil && stopIdToIndex != csv.headerMap
-//@   loop 1 invariant forall k string :: has(stopIdToIndex, k) ==> 0 <= stopIdToIndex[k] && stopIdToIndex[k] < len(stops)
+//@   loop 1 invariant csv.csvReader == old(csv.csvReader)
+//@   loop 1 invariant len(parentStopIds) == len(stops) && stopIdToIndex != nil && stopIdToIndex != csv.headerMap && fresh(stops) && fresh(parentStopIds) && fresh(stopIdToIndex)
+//@   loop 1 invariant [index-by-id] forall k string :: has(stopIdToIndex, k) ==> 0 <= stopIdToIndex[k] && stopIdToIndex[k] < len(stops) && stops[stopIdToIndex[k]].Id == k
+//@   loop 1 invariant [no-parents-yet] forall i int :: 0 <= i && i < len(stops) ==> stops[i].Parent == nil
+//@   loop 1 step [blank-id-iff-a-missing-key-is-recorded] (col(csv, "stop_id") == "") == (len(csv.currentRow.missingKeys) > 0)
+//@   loop 1 step [appended-iff-no-missing-key] (len(stops) == athead(1, len(stops)) + 1) == (len(csv.currentRow.missingKeys) == 0) && (len(stops) == athead(1, len(stops))) == (len(csv.currentRow.missingKeys) > 0)
+//@   loop 1 step [row-with-an-id-is-appended] col(csv, "stop_id") != "" ==> stopAppended(stops, athead(1, len(stops)), parentStopIds, csv) && has(stopIdToIndex, col(csv, "stop_id")) && stopIdToIndex[col(csv, "stop_id")] == len(stops) - 1
+//@   loop 1 step [row-without-an-id-is-inert] col(csv, "stop_id") == "" ==> len(stops) == athead(1, len(stops))
+//@   loop 1 step [earlier-stops-kept] forall k int :: 0 <= k && k < athead(1, len(stops)) ==> stops[k] == athead(1, stops[k])
+//@   loop 1 step [earlier-parent-ids-kept] forall k int :: 0 <= k && k < athead(1, len(stops)) ==> parentStopIds[k] == athead(1, parentStopIds[k])
 //@   loop 1 decreases remaining(csv.csvReader)
-//@   loop 2 invariant len(parentStopIds) == len(stops)
-//@   loop 2 invariant forall k string :: has(stopIdToIndex, k) ==> 0 <= stopIdToIndex[k] && stopIdToIndex[k] < len(stops)
+//@   loop 2 invariant len(parentStopIds) == len(stops) && fresh(stops) && fresh(parentStopIds)
+//@   loop 2 invariant [index-by-id] forall k string :: has(stopIdToIndex, k) ==> 0 <= stopIdToIndex[k] && stopIdToIndex[k] < len(stops) && stops[stopIdToIndex[k]].Id == k
+//@   loop 2 invariant [parents-are-elements] forall i int :: 0 <= i && i < len(stops) ==> nilOrElement(stops[i].Parent, stops)
+//@   loop 2 invariant [later-stops-have-no-parent-yet] forall i int :: $i <= i && i < len(stops) ==> stops[i].Parent == nil
+//@   loop 2 step [parent-is-the-stop-named-by-the-row] stops[i].Parent == nil || (parentStopId != "" && has(stopIdToIndex, parentStopId) && stops[i].Parent == &stops[stopIdToIndex[parentStopId]] && stops[i].Parent.Id == parentStopId)
+//@   loop 2 step [only-the-parent-link-of-this-stop-changes] forall k int :: 0 <= k && k < len(stops) ==> (k != i ==> stops[k] == athead(2, stops[k])) && stops[k].Id == athead(2, stops[k].Id) && stops[k].Type == athead(2, stops[k].Type) && stops[k].WheelchairBoarding == athead(2, stops[k].WheelchairBoarding) && stops[k].Name == athead(2, stops[k].Name)
+//@   loop 3 invariant [parents-are-elements] forall i int :: 0 <= i && i < len(stops) ==> nilOrElement(stops[i].Parent, stops)
+//@   loop 3 invariant nilOrElement(s, stops) && 0 <= parentStopIndex && parentStopIndex < len(stops) && 0 <= i && i < len(stops) && stops[i].Parent == nil
 //@   loop 3 bounded parent-forest
+//@   loop 4 invariant [parents-are-elements] forall i int :: 0 <= i && i < len(stops) ==> nilOrElement(stops[i].Parent, stops)
+//@   loop 4 step [unspecified-takes-the-parent-stations-value] stops[i].WheelchairBoarding == ((athead(4, stops[i].WheelchairBoarding) == WheelchairBoarding_NotSpecified && stops[i].Parent != nil && athead(4, stops[i].Parent.Type) == StopType_Station) ? athead(4, stops[i].Parent.WheelchairBoarding) : athead(4, stops[i].WheelchairBoarding))
+//@   loop 4 step [nothing-else-changes] forall k int :: 0 <= k && k < len(stops) ==> (k != i ==> stops[k] == athead(4, stops[k])) && stops[k].Id == athead(4, stops[k].Id) && stops[k].Parent == athead(4, stops[k].Parent) && stops[k].Type == athead(4, stops[k].Type) && stops[k].Name == athead(4, stops[k].Name)
 
 //@ func parseTransfers
 //@   props C01 C03 C05 C08 C09 C10
